@@ -47,3 +47,41 @@ def both_parities(ctx):
           ctx.check(not factors or sorted(int(x) for x in factors) == sorted((p, q)),
                     "factors returned by CheckLowHammingWeight are the true primes", inputs,
                     observed=[int(x) for x in factors], expected=sorted((p, q)))
+
+
+@bounded("C05", "low_hamming_weight_leading_ones",
+         bound="SAMPLED: primes of 256 / 512 bits (weight 12 / 16) whose top k bits are ALL ones, k in {3, 4, 5, 6, 8} (both "
+               "primes the same k, and k = 5 paired with k = 1): the first expansions of the best-first search then sit "
+               "exactly on its pruning boundary rem == p0 + q0; CheckLowHammingWeight(n) must flag, factors must be {p, q}",
+         functions=["rsa_util.CheckLowHammingWeight"])
+def leading_ones(ctx):
+  from bounded import c05
+  from pyvc import runtime
+  runtime.install()
+  import gmpy2
+  from paranoid_crypto.lib import rsa_util
+  rnd = c05._rnd(ctx, "lhw_leading_ones")
+
+  def prime(bits, weight, lead):
+    while True:
+      p = (((1 << lead) - 1) << (bits - lead)) | 1
+      for i in rnd.sample(range(1, bits - lead), weight - lead - 1):
+        p |= 1 << i
+      if gmpy2.is_prime(p):
+        return p
+  for bits, weight in ((256, 12), (512, 16)):
+    for k1, k2 in ((3, 3), (4, 4), (5, 5), (6, 6), (8, 8), (5, 1)):
+      for trial in range(3 if ctx.thorough else 1):
+        p, q = prime(bits, weight, k1), prime(bits, weight, k2)
+        if p == q:
+          continue
+        n = p * q
+        inputs = dict(family="low_hamming_weight_leading_ones", modulus_bits=n.bit_length(), leading_ones=[k1, k2],
+                      weights=[weight, weight], p=p, q=q, n=n)
+        ctx.case(key=(bits, k1, k2, trial))
+        weak, factors = rsa_util.CheckLowHammingWeight(gmpy2.mpz(n))
+        ctx.check(bool(weak), "CheckLowHammingWeight flags n when both primes have Hamming weight <= 32", inputs,
+                  observed=dict(weak=bool(weak), factors=[int(x) for x in factors]), expected="weak == True")
+        ctx.check(not factors or sorted(int(x) for x in factors) == sorted((p, q)),
+                  "factors returned by CheckLowHammingWeight are the true primes", inputs,
+                  observed=[int(x) for x in factors], expected=sorted((p, q)))
